@@ -281,10 +281,13 @@ def run(ctx):
     gs = build_schema(sdl)
     cfg_sc = {k: v for k, v in SCALARS.items() if v}
     scs = []
-    for snake in (True, False):
-        for async_ in (True, False):
+    # the four bundled clients: sync / async x plain / OpenTelemetry (the latter driven without and WITH a tracer)
+    for snake, async_, otel in [(True, True, False), (True, False, False), (False, True, False), (False, False, False),
+                                (True, True, True), (False, False, True)]:
+        if True:
             scs.append(Scenario(seed=len(scs), sdl=sdl, queries=build_queries(leaf, subscriptions=async_),
                                 config={"convert_to_snake_case": snake, "async_client": async_, "scalars": cfg_sc,
+                                        "opentelemetry_client": otel,
                                         "files_to_include": ["custom_scalars.py"]},
                                 files={"vscal.py": argenc.VSCAL + VSCAL_EXTRA, "custom_scalars.py": CUSTOM_SCALARS_PY}))
     ssx = argenc.schema_sx(gs, cfg_sc)
@@ -297,7 +300,7 @@ def run(ctx):
                               "config": g.sc.config, "tb": g.res.get("tb")})
                 return
         k1_annotations(ctx, gens[0], gens[2], gs, ssx, leaf)
-        results = scen.parallel(gens, lambda g: drive(ctx, g, gs, ssx, leaf, n_rounds), jobs=4)
+        results = scen.parallel(gens, lambda g: drive(ctx, g, gs, ssx, leaf, n_rounds), jobs=6)
     for g, rows in zip(gens, results):
         evaluate(ctx, g, gs, ssx, rows)
     deep_inputs(ctx)
@@ -531,9 +534,23 @@ def drive(ctx, g, gs, ssx, leaf, n_rounds):
     if not ld.get("ok"):
         g.stop()
         return [("load", ld)]
+    otel = bool(g.sc.config.get("opentelemetry_client"))
+    tracer_box = [False]
+
+    class _Drv:
+        def ask(self, d):
+            return g.driver.ask(dict(d, tracer=tracer_box[0]))
+
+    drv = _Drv()
+    plan_rounds = [(rnd, False) for rnd in range(n_rounds)]
+    if otel:
+        plan_rounds = [(rnd, tr) for tr in (False, True) for rnd in range(max(3, n_rounds // 2))]
     try:
         q = gs.query_type
-        for rnd in range(n_rounds):
+        for rnd, tracer_on in plan_rounds:
+            tracer_box[0] = tracer_on
+            ctx.run.dist("clients", ("async" if g.sc.config["async_client"] else "sync") +
+                         ("+otel" + ("+tracer" if tracer_on else "") if otel else ""))
             mode = ["full", "null", "rand"][rnd % 3] if rnd < 3 else "rand"
             # ---- results
             def obj(depth):
@@ -551,7 +568,7 @@ def drive(ctx, g, gs, ssx, leaf, n_rounds):
             else:
                 top["child"], top["kids"] = None, None
             data = {"obj": top if not (mode == "null" and rnd % 2) else None}
-            r = g.driver.ask({"cmd": "call_args", "method": "results", "args": {}, "response_body": {"data": data},
+            r = drv.ask({"cmd": "call_args", "method": "results", "args": {}, "response_body": {"data": data},
                               "dump_result": True})
             rows.append(("results", mode, data, r))
 
@@ -576,11 +593,11 @@ def drive(ctx, g, gs, ssx, leaf, n_rounds):
             if u["__typename"] == "NB":
                 u.pop("nb")
             data = {"node": None if mode == "null" else n1, "nodes": nodes, "u": u}
-            r = g.driver.ask({"cmd": "call_args", "method": "abstract", "args": {}, "response_body": {"data": data},
+            r = drv.ask({"cmd": "call_args", "method": "abstract", "args": {}, "response_body": {"data": data},
                               "dump_result": True})
             rows.append(("abstract", mode, data, r))
             data = {"nodeReq": node(rng.choice(["NA", "NB"]))}
-            r = g.driver.ask({"cmd": "call_args", "method": "cond", "args": {"c": True}, "response_body": {"data": data},
+            r = drv.ask({"cmd": "call_args", "method": "cond", "args": {"c": True}, "response_body": {"data": data},
                               "dump_result": True})
             rows.append(("cond", mode, data, r))
             # ---- top-level arguments
@@ -597,11 +614,11 @@ def drive(ctx, g, gs, ssx, leaf, n_rounds):
                         args[scen.param_name(n, snake)] = enc
                         intended[n] = it
                         per_var.append((n, t, sx, occ))
-                    r = g.driver.ask({"cmd": "call_args", "method": scen.method_name("Echo" + s), "args": args,
+                    r = drv.ask({"cmd": "call_args", "method": scen.method_name("Echo" + s), "args": args,
                                       "intended": intended})
                     rows.append(("echo", (s, amode), per_var, r))
                     if s == "SD" and g.sc.config["async_client"]:
-                        r = g.driver.ask({"cmd": "call_args", "method": scen.method_name("SubEchoSD"), "args": args,
+                        r = drv.ask({"cmd": "call_args", "method": scen.method_name("SubEchoSD"), "args": args,
                                           "intended": intended})
                         rows.append(("echo", (s, amode + ":ws"), per_var, r))
             # ---- input models
@@ -612,10 +629,10 @@ def drive(ctx, g, gs, ssx, leaf, n_rounds):
             r_sx, r_enc, r_int, r_occ = gen.arg(gs.type_map["InReq"], mode if mode != "null" else "rand", True)
             args = {"i": i_enc, "l": [x[1] for x in l_items], "r": r_enc}
             intended = {"i": i_int, "l": [x[2] for x in l_items], "r": r_int}
-            r = g.driver.ask({"cmd": "call_args", "method": "inputs", "args": args, "intended": intended})
+            r = drv.ask({"cmd": "call_args", "method": "inputs", "args": args, "intended": intended})
             rows.append(("inputs", mode, ([i_sx] + [x[0] for x in l_items] + [r_sx], i_occ + [o for x in l_items for o in x[3]] + r_occ), r))
             if g.sc.config["async_client"]:
-                r = g.driver.ask({"cmd": "call_args", "method": scen.method_name("SubInputs"), "args": args, "intended": intended})
+                r = drv.ask({"cmd": "call_args", "method": scen.method_name("SubInputs"), "args": args, "intended": intended})
                 rows.append(("inputs", mode + ":ws", ([i_sx] + [x[0] for x in l_items] + [r_sx], i_occ + [o for x in l_items for o in x[3]] + r_occ), r))
     finally:
         g.stop()
@@ -758,6 +775,14 @@ def evaluate(ctx, g, gs, ssx, rows):
             if construct:
                 run.violation(f"inputs: hooks called while constructing the models: {construct[:3]}", rep)
             problems = []
+            # OpenTelemetry async client WITH a tracer, subscription: _send_subscribe_with_telemetry converts the
+            # variables for the span attribute and _send_subscribe converts them again (finding F31)
+            tel_ws = (isinstance(mode, str) and mode.endswith(":ws") and g.sc.config.get("opentelemetry_client")
+                      and r.get("tracer_used"))
+            if tel_ws and exp and multiset(ser_log) == multiset(exp + exp):
+                run.finding("F31-telemetry-subscribe-converts-twice",
+                            f"inputs (subscription, OpenTelemetry client with tracer): every serialize call happens twice: {ser_log[:4]}", rep)
+                continue
             if multiset(ser_log) != multiset(exp):
                 extra = multiset(ser_log) - multiset(exp)
                 missing = multiset(exp) - multiset(ser_log)
